@@ -310,6 +310,24 @@ let cmd_doc (args : string list) : string =
     "ok " ^ print_oid last_id ^ " " ^ print_oid head_id
   | _ -> "err badcmd"
 
+(* ---------- quotations: which elements are registered for a quotation, and when observers must be told ---------- *)
+(* units: "c:k+" (live) / "c:k-" (tombstone) comma separated, "_" = none; bound: "-" | "c:k,i" (inclusive) | "c:k,e"; ids: "c:k,..." *)
+let parse_ck (t : string) : n * n = match String.split_on_char ':' t with [c; k] -> (n_of_hex c, n_of_hex k) | _ -> failwith "ck"
+let lk_units (s : string) : ((n * n) * bool) list =
+  if s = "_" then [] else List.map (fun t -> let l = String.length t in (parse_ck (String.sub t 0 (l - 1)), t.[l - 1] = '+')) (String.split_on_char ',' s)
+let lk_ids (s : string) : (n * n) list = if s = "_" then [] else List.map parse_ck (String.split_on_char ',' s)
+let lk_bound_of (s : string) : ((n * n) * bool) option =
+  if s = "-" then None else (match String.split_on_char ',' s with [i; f] -> Some (parse_ck i, f = "i") | _ -> failwith "bound")
+let print_ck ((c, k) : n * n) = hex_of_n c ^ ":" ^ hex_of_n k
+let print_cks l = match l with [] -> "_" | _ -> String.concat "," (List.sort compare (List.map print_ck l))
+let cmd_lk (args : string list) : string =
+  match args with
+  | ["init"; units; s; e] -> "ok " ^ print_cks (lk_initial_registered (lk_units units) (lk_bound_of s) (lk_bound_of e))
+  | ["step"; before; reg; after; s; e] ->
+    let (b, r, a, s, e) = (lk_units before, lk_ids reg, lk_units after, lk_bound_of s, lk_bound_of e) in
+    "ok " ^ (if lk_should_notify b r a s e then "notify" else "silent") ^ " " ^ print_cks (lk_next_registered b r a s e)
+  | _ -> "err badcmd"
+
 (* ---------- codecs ---------- *)
 let cmd_dec (args : string list) : string =
   match args with
@@ -601,6 +619,7 @@ let dispatch (line : string) : string =
   | "EV" :: args -> cmd_ev args
   | "U" :: args -> cmd_undo args
   | "CELL" :: args -> cmd_cell args
+  | "LK" :: args -> cmd_lk args
   | "DEC" :: args -> cmd_dec args
   | "ENC" :: args -> cmd_enc args
   | ["PING"] -> "ok pong"
